@@ -241,9 +241,8 @@ impl ValKind for KVec {
 
 fn build_sstable<K: ValKind>(keys: &[Vec<u8>], vals: &[<K::T as SSTable>::Value], block_len: usize) -> std::io::Result<Dictionary<K::T>> {
     let mut w = Dictionary::<K::T>::builder(Vec::new())?;
-    if block_len > 0 {
-        w.set_block_len(block_len);
-    }
+    // (0 is a legal block length: every key gets a block of its own, the empty key included)
+    w.set_block_len(block_len);
     for (k, v) in keys.iter().zip(vals.iter()) {
         w.insert(k, v)?;
     }
@@ -550,9 +549,7 @@ fn run_merge(tr: &Tracer, m: &Value) {
                     for ks in &srcs {
                         let vals: Vec<()> = ks.iter().map(|_| ()).collect();
                         let mut w = Dictionary::<VoidSSTable>::builder(Vec::new()).unwrap();
-                        if block_len > 0 {
-                            w.set_block_len(block_len);
-                        }
+                        w.set_block_len(block_len);
                         for (k, v) in ks.iter().zip(vals.iter()) {
                             w.insert(k, v).unwrap();
                         }
@@ -578,9 +575,7 @@ fn run_merge(tr: &Tracer, m: &Value) {
                     let mut vals: Vec<Vec<Value>> = vec![];
                     for ks in &srcs {
                         let mut w = Dictionary::<MonotonicU64SSTable>::builder(Vec::new()).unwrap();
-                        if block_len > 0 {
-                            w.set_block_len(block_len);
-                        }
+                        w.set_block_len(block_len);
                         let mut vs = vec![];
                         for k in ks {
                             let v = f(k);
@@ -773,7 +768,7 @@ fn gen_case(rng: &mut StdRng, profile: &str, tag: Value) -> Value {
         _ => &[0, 1, 2, 3, 10, 50],
     };
     let n = *sizes.choose(rng).unwrap();
-    let block_len = *(if profile == "big" { &[1usize, 1, 16, 64, 400, 4000][..] } else { &[1usize, 16, 64, 400, 4000][..] }).choose(rng).unwrap();
+    let block_len = *(if profile == "big" { &[0usize, 1, 16, 64, 400, 4000][..] } else { &[0usize, 1, 16, 64, 400, 4000][..] }).choose(rng).unwrap();
     let mut set: std::collections::BTreeSet<Vec<u8>> = Default::default();
     for _ in 0..n {
         let k = if profile == "search" {
@@ -863,7 +858,7 @@ fn gen_merge(rng: &mut StdRng, tag: Value) -> Value {
         }
         srcs.push(json!(ks.iter().map(|k| jbytes(k)).collect::<Vec<_>>()));
     }
-    json!({"tag":tag,"merge":{"impl":imp,"srcs":srcs,"block_len":*[1usize, 16, 400, 4000].choose(rng).unwrap()}})
+    json!({"tag":tag,"merge":{"impl":imp,"srcs":srcs,"block_len":*[0usize, 1, 16, 400, 4000].choose(rng).unwrap()}})
 }
 
 fn main() {
